@@ -14,6 +14,31 @@ CMP = ("Eq", "Ne", "Lt", "Le", "Gt", "Ge")
 TRY_BRANCH = ("std::ops::Try::branch", "std::ops::Try::branch")
 
 
+CONST_GETTER_NAMES = ("hash_len", "block_len", "pub_len", "dh_len", "priv_len", "ciphertext_len", "shared_secret_len")
+
+
+def is_const_getter_call(e):
+    return e and e[0] == "call" and isinstance(e[1], str) and "::types::" in e[1] and e[1].split("::")[-1] in CONST_GETTER_NAMES
+
+
+def mutable_paths(e, acc=None):
+    """paths whose *current contents* an expression depends on: like expr_paths, but the receiver of a constant
+    getter of the primitive traits (hash_len, pub_len, ...) is not a dependency — the trait contract makes these
+    constants of the object, whatever is written into it"""
+    if acc is None:
+        acc = set()
+    if isinstance(e, tuple):
+        if is_const_getter_call(e):
+            return acc
+        if e and e[0] in ("place", "ref") and len(e) == 2 and isinstance(e[1], frozenset):
+            acc |= set(e[1])
+        else:
+            for x in e:
+                if isinstance(x, tuple):
+                    mutable_paths(x, acc)
+    return acc
+
+
 def expr_paths(e, acc=None):
     """all (root, proj) paths mentioned in an expression"""
     if acc is None:
@@ -171,7 +196,7 @@ class Guards:
     def _killed(self, fact, ext, locs):
         if fact[0] == "hist":
             return False
-        for root, proj in expr_paths(fact):
+        for root, proj in mutable_paths(fact):
             ch = fields_only(proj)
             for (r2, ch2) in ext:
                 if r2 == root and overlaps(ch, ch2):
